@@ -25,7 +25,8 @@ Print Assumptions inline_matches_sync_partial.
     ([sync_nc] never consumes): a Deferred that had already failed raises at each await, a retry loop keeps seeing the
     failure, coroutines sharing a cached Deferred all see its outcome.  The theorem holds for every execution in which
     no await read a Deferred after the driver had taken its result ([stale w = false]); the driver takes it only from a
-    Deferred the coroutine was SUSPENDED on, once the cascade started by its firing is over — re-awaiting such a Deferred
+    Deferred a coroutine of the stack was SUSPENDED on, once the cascade started by its firing is over (during cancel():
+    as soon as the coroutine that was suspended on it has finished — its callers are resumed later) — re-awaiting such a Deferred
     after suspending again yields None in the implementation (the Deferred's result is then the return value of the
     driver's callback), which is the one situation the synchronous reading does not cover. *)
 Theorem coroutine_matches_sync_partial : forall assign canc pre hold0 g sched r w,
@@ -52,7 +53,7 @@ Print Assumptions suspended_prefix_of_sync.
 Theorem suspended_only_on_unfired : forall assign canc coro pre hold0 g sched d k w,
   run assign canc coro pre hold0 g sched = (Suspended d k, w) -> ~ In d pre /\ ~ In (SFire d) sched.
 Proof.
-  intros assign canc coro pre hold0 g sched d k w H. pose proof (run_WF assign canc coro pre hold0 g sched) as (_ & _ & HW).
+  intros assign canc coro pre hold0 g sched d k w H. pose proof (run_WF assign canc coro pre hold0 g sched) as (_ & _ & HW & _).
   pose proof (run_fired assign canc coro pre hold0 g sched d) as Hf. rewrite H in HW, Hf. cbn [fst snd] in *.
   split; intros Hin; apply HW, Hf; [left | right]; exact Hin.
 Qed.
@@ -64,7 +65,8 @@ Print Assumptions suspended_only_on_unfired.
 Theorem cancel_cancels_exactly_awaited : forall assign canc coro d k w, mem d (held w) = false ->
   cancelled (snd (cancel assign canc coro (Suspended d k, w))) = d :: cancelled w /\
   cancel assign canc coro (Suspended d k, w) =
-    resume assign canc coro d k (mkw (d :: fired w) (d :: cancelled w) (consumed w) (Cancelled d :: seen w) (held w) (stale w)).
+    resume assign canc coro true d k
+      (mkw (d :: fired w) (d :: cancelled w) (consumed w) (Cancelled d :: seen w) (held w) (settling w) (stale w)).
 Proof. exact cancel_exactly. Qed.
 Print Assumptions cancel_cancels_exactly_awaited.
 
